@@ -1570,12 +1570,8 @@ def units(tier, seed):
         "get_iobuf", "get_ip_address", "get_working_links",
         "get_num_working_cores", "write_struct_field",
         "read_struct_field"])
-    if quick:
-        rnd = random.Random(seed)
-        mc_names = sorted(rnd.sample(mc_names,
-                                     int(math.ceil(len(mc_names) / 3.0))))
-        bmp_names = sorted(rnd.sample(bmp_names,
-                                      int(math.ceil(len(bmp_names) / 3.0))))
+    # (all methods in both tiers: a seeded third in quick was the first
+    # sizing; the whole set costs under a minute)
     us = []
     W = ("sent", "rejected", "left-by-exception")
     strides = (4,) if quick else (4, 7)
